@@ -74,6 +74,7 @@ func (s *Store) AddMessage(message storage.Message) (id string, err error) {
 		date:    message.Date(),
 		subject: message.Subject(),
 	}
+	var evicted []*Message
 	s.withMailbox(message.Mailbox(), true, func(mb *mbox) {
 		// Generate message ID.
 		mb.last++
@@ -86,12 +87,22 @@ func (s *Store) AddMessage(message storage.Message) (id string, err error) {
 		if s.cap > 0 {
 			// Enforce cap.
 			for len(mb.messages) > s.cap {
-				delete(mb.messages, strconv.Itoa(mb.first))
+				key := strconv.Itoa(mb.first)
+				if old := mb.messages[key]; old != nil {
+					delete(mb.messages, key)
+					evicted = append(evicted, old)
+				}
 				mb.first++
 			}
 		}
 	})
 	s.enforcerDeliver(m)
+
+	// Update size accounting and emit delete events for messages evicted by the cap.
+	for _, old := range evicted {
+		s.enforcerRemove(old)
+		s.emitDeleted(old)
+	}
 	return id, err
 }
 
@@ -183,10 +194,15 @@ func (s *Store) removeMessage(mailbox, id string) *Message {
 	})
 
 	if m != nil {
-		s.extHost.Events.AfterMessageDeleted.Emit(message.MakeMetadata(m))
+		s.emitDeleted(m)
 	}
 
 	return m
+}
+
+// emitDeleted announces that m has left its mailbox.
+func (s *Store) emitDeleted(m *Message) {
+	s.extHost.Events.AfterMessageDeleted.Emit(message.MakeMetadata(m))
 }
 
 // RemoveMessage deletes a single message.
